@@ -192,6 +192,15 @@ class C07Monitor(jobsim.Monitor):
                 self.V("prescribed-exact", f"returned field differs from the boundary values by {d.max():.3e} at unknown {int(idx[d.argmax()])}", site="result.x-vs-boundaries")
             if not set(idx.tolist()) <= set(c["dof0"].tolist()):
                 self.V("prescribed-exact", "an unknown selected by a boundary is not in the prescribed set", site="dof0")
+        # prescribed unknowns that no boundary selects (points without cells): held at the values they had
+        covered_ = set(exp.keys()) if exp else set()
+        held_ = np.array([int(v) for v in c["dof0"] if int(v) not in covered_], dtype=int)
+        if held_.size:
+            xs_ = np.concatenate([np.asarray(v).ravel() for v in c["x_start"]])
+            dh_ = np.abs(x[held_] - xs_[held_])
+            if dh_.max() > 1e-14 * (1 + np.abs(xs_[held_]).max()):
+                self.V("prescribed-exact", f"a prescribed unknown that no boundary selects (point without cells) was moved by {dh_.max():.3e} from the value it had (unknown {int(held_[dh_.argmax()])})", site="result.x-held-unknowns")
+            self.log.count("held-unknowns-checked")
         want0 = world.expected_dof0(eng.w, c["step"])
         got0 = set(int(v) for v in c["dof0"])
         if want0 != got0:
